@@ -359,6 +359,27 @@ static void good_prune(cJSON * const container)
 }
 void use_prune(cJSON *c) { bad_MRG5_prune(c); good_prune(c); }
 
+/* IDX1: an index token handed to strtoul */
+#include <stdlib.h>
+int bad_IDX1_strtoul(const unsigned char * const pointer, size_t * const index)
+{
+    char *end = NULL;
+    unsigned long v = strtoul((const char*)pointer, &end, 10);
+    if ((end == (const char*)pointer) || ((end[0] != '\0') && (end[0] != '/'))) { return 0; }
+    *index = (size_t)v;
+    return 1;
+}
+int good_digit_first(const unsigned char * const pointer, size_t * const index)
+{
+    char *end = NULL;
+    unsigned long v = 0;
+    if ((pointer[0] < '0') || (pointer[0] > '9')) { return 0; }
+    v = strtoul((const char*)pointer, &end, 10);
+    if ((end[0] != '\0') && (end[0] != '/')) { return 0; }
+    *index = (size_t)v;
+    return 1;
+}
+
 /* LST1 (relinker calls, stale order) */
 static cJSON *sort_list(cJSON *list, const cJSON_bool case_sensitive) { (void)case_sensitive; if (list && list->next) { cJSON *n = list->next; n->next = list; list->next = NULL; n->prev = NULL; list->prev = n; return n; } return list; }
 static void bad_LST1_sort_same_head(cJSON * const object)
